@@ -541,6 +541,20 @@ func runCaseRaw(c Case, o lib.Opts, res *lib.Result, self string) {
 			if !driverFailed && k < len(ops) {
 				errRetry := Exec(lay, []DOp{op})
 				after := readLayout(lay)
+				// a manifest delete has converged only when the manifest file is gone as it is in the intended state
+				stillThere := false
+				if op.K == "mandel" {
+					hasFile := func(dir string) bool {
+						i := strings.IndexByte(op.Digest, ':')
+						_, e := os.Stat(filepath.Join(dir, "blobs", op.Digest[:i], op.Digest[i+1:]))
+						return e == nil
+					}
+					stillThere = hasFile(lay) && !hasFile(filepath.Join(trDir, "layout"))
+				}
+				if stillThere {
+					fail("retry-does-not-converge", "after repeating the interrupted manifest delete (err=%v) the manifest file %s is still there; the completed operation removes it", errRetry, op.Digest[:19])
+					continue
+				}
 				if errRetry != nil && !(len(after.problems) == 0 && sameTags(after.tags, intended.tags)) {
 					// an error is fine when the interrupted operation had in fact already taken effect
 					fail("retry-fails-after-crash", "repeating the interrupted operation failed: %v (tags %v, intended %v)", errRetry, after.tags, intended.tags)
@@ -660,6 +674,9 @@ func genCase(r *lib.Rand, srcDir string) Case {
 			c.History = append(c.History, DOp{K: "close"})
 		case k < 78:
 			c.History = append(c.History, DOp{K: "blobput", Body: sigCfg.Body}, DOp{K: "blobput", Body: sigPayload.Body}, DOp{K: "manputchild", Body: art.Body, Digest: art.Digest})
+			if r.Chance(50) { // ... and the referrer-aware delete of a manifest that carries a subject
+				c.History = append(c.History, DOp{K: "mandel", Digest: art.Digest})
+			}
 		case k < 88:
 			c.History = append(c.History, DOp{K: "import", Src: filepath.Join(filepath.Dir(srcDir), "c07src.tar"), Tag: lib.Pick(r, tags)})
 		default:
